@@ -363,6 +363,7 @@ class Check(object):
                     continue
                 reported.add(base)
                 self.report_violation(oid, payload, True,
+                                      witness_class=w.get('witness_class'),
                                       what='%s is %s; failing input replayed '
                                            'on the real code' % (oid, status))
             elif status == smt.SAT and kind not in ('exc-freedom',):
